@@ -41,6 +41,34 @@ def _decision_of(f, idx):
     return None
 
 
+def _decisions_under(g, f, ret_idx, pins):
+    """set of Decision enumerators the return at node ret_idx can yield under pins: read off the return expression, or - when the
+    decision travels through an enum local (single-exit form) - off the definitions of that local that can be the last one before
+    the return on a path feasible under the pins; '?' for anything not understood"""
+    from ..symb import feasible_reach, feasible_armed_reach
+    d = _decision_of(f, f.nodes[ret_idx]['e'])
+    if d is not None:
+        return {d}
+    refs = [f.nodes[i] for i in f.subtree(f.nodes[ret_idx]['e']) if f.nodes[i]['k'] == 'ref' and f.nodes[i].get('sk') == 'local' and 'Decision' in (f.nodes[i].get('t') or '')]
+    if len({r['id'] for r in refs}) != 1:
+        return {'?'}
+    vid = refs[0]['id']
+    rp = [p for p in g.points if p.f is f and p.n is not None and p.n['i'] == ret_idx]
+    defs = []
+    for p in g.points:
+        if p.f is not f or p.n is None:
+            continue
+        for (v, strong, vx) in defs_in_node(f, p.n):
+            if v == vid:
+                defs.append((p, _decision_of(f, vx) if vx is not None and vx >= 0 else None, strong))
+    out = set()
+    for (p, val, strong) in defs:
+        others = [q for (q, _v, _s) in defs if q is not p]
+        if rp and feasible_reach(g, [g.entry], [p], pins=pins) is not None and feasible_armed_reach(g, [p], others, rp, pins=pins) is not None:
+            out.add(val if (val is not None and strong) else '?')
+    return out or {'?'}
+
+
 def rule_r1(ck, prog, cg, cls='sdk::trace::TraceIdRatioBasedSampler', rule='C12.R1'):
     rec = prog.record(cls)
     fs = [f for f in prog.funcs.values() if f.cls == rec['qn'] and f.name == 'ShouldSample']
@@ -178,15 +206,18 @@ def rule_r2(ck, prog, cg, f_should, rule='C12.R2'):
     table = {}
     for z in (True, False):
         for l in (True, False):
-            rets_, _seen = explore_pinned(g2, scen_pins(z, l))
-            table[(z, l)] = {_decision_of(f, f.nodes[ri]['e']) if ri is not None else '?' for (ri, _v, _e) in rets_}
+            sp_ = scen_pins(z, l)
+            rets_, _seen = explore_pinned(g2, sp_)
+            table[(z, l)] = set()
+            for (ri, _v, _e) in rets_:
+                table[(z, l)] |= _decisions_under(g2, f, ri, sp_) if ri is not None else {'?'}
     ok = table[(False, True)] == {'RECORD_AND_SAMPLE'}
     ck.verdict(ok, rule, f, 'sample-iff-id<=threshold', samp[0].n if samp else None,
                'RECORD_AND_SAMPLE exactly for threshold != 0 and f(trace id) <= threshold' if ok else 'sampling is not decided by f(trace id) <= threshold (strict comparison or reversed operands change which traces are kept): with a non-zero threshold and id <= threshold the decisions are %s' % sorted(table[(False, True)]))
     ok = table[(True, True)] == {'DROP'} and table[(True, False)] == {'DROP'} and table[(False, False)] == {'DROP'}
     ck.verdict(ok, rule, f, 'drop-on-zero-threshold-or-above', drop[0].n if drop else None,
                'DROP exactly for threshold == 0 or id above threshold' if ok else 'DROP is not exactly the zero-threshold / above-threshold case (ratio 0 could sample the all-zero-prefix ids): %s' %
-               ', '.join('%s/%s -> %s' % ('zero' if z else 'nonzero', 'id<=thr' if l else 'id>thr', '|'.join(sorted(v))) for (z, l), v in sorted(table.items())))
+               ', '.join('%s/%s -> %s' % ('zero' if z else 'nonzero', 'id<=thr' if l else 'id>thr', '|'.join(sorted(str(x) for x in v))) for (z, l), v in sorted(table.items())))
     # same mapping on both sides
     cb = prog.function('CalculateThresholdFromBuffer')
     ok = ct.key in cg.calls.get(cb.key, ()) and cb.key in cg.calls.get(f.key, ())
@@ -452,6 +483,17 @@ def rule_r2b(ck, prog, ct, rule='C12.R2b'):
                        'the scaled ratio reaches %g, so the threshold %g * (2^%d + 1) exceeds 2^64 - 1 and wraps around: ratios just below 1 map to small thresholds (a trace sampled at a lower ratio is dropped at a higher one)' % (x.hi, x.hi, k))
 
 
+def _constant_samplers(ck, prog, rule):
+    for cname, dec in (('sdk::trace::AlwaysOnSampler', 'RECORD_AND_SAMPLE'), ('sdk::trace::AlwaysOffSampler', 'DROP')):
+        r2 = prog.record(cname)
+        f2 = [x for x in prog.funcs.values() if x.cls == r2['qn'] and x.name == 'ShouldSample'][0]
+        g2 = Graph(prog, f2, inline=None, sync_lambdas=False)
+        rr = g2.returns()
+        ok = bool(rr) and all(_decision_of(f2, r.n['e']) == dec for r in rr)
+        ck.verdict(ok, rule, f2, 'constant-decision', rr[0].n if rr else None, 'every return is %s' % dec if ok else '%s can return a decision other than %s' % (cname.rsplit('::', 1)[-1], dec))
+
+
+
 def rule_r3(ck, prog, rule='C12.R3', cls='sdk::trace::ParentBasedSampler'):
     rec = prog.record(cls)
     f = [x for x in prog.funcs.values() if x.cls == rec['qn'] and x.name == 'ShouldSample'][0]
@@ -589,6 +631,16 @@ def rule_r3(ck, prog, rule='C12.R3', cls='sdk::trace::ParentBasedSampler'):
     ck.verdict(ok, rule, f, 'no-valid-parent=>root-sampler-decides', dele[0].n if dele else None,
                'without a valid parent the result is the root sampler\'s, whatever the flags byte says' if ok else
                'for an invalid parent context the result is not (only) the root sampler\'s: %s' % sorted(table[(F, T)] | table[(F, F)]))
+    unreadable = [k_ for k_ in ((T, T), (T, F)) if any(d == '?' for (d, _s) in table[k_])]
+    if unreadable and have_preds and not delegate_run[(T, T)] and not delegate_run[(T, F)]:
+        # the decision is not written as an enumerator in the result (a table lookup, a computed value): not decided, not accused
+        for site_ in ('valid-sampled=>record-and-sample', 'valid-unsampled=>drop'):
+            ck.inconclusive(rule, f, site_, None, 'the decision of the valid-parent result is computed (table lookup / arithmetic) rather than named: this rule reads enumerators only')
+        ok = have_preds and all(st for (_d, st) in table[(T, T)] | table[(T, F)])
+        ck.verdict(ok, rule, f, 'parent-trace-state-both-ways', None,
+                   'both results carry the parent\'s trace state' if ok else 'a result for a valid parent does not carry the parent\'s trace state')
+        _constant_samplers(ck, prog, rule)
+        return
     ok = have_preds and {d for (d, _s) in table[(T, T)]} == {'RECORD_AND_SAMPLE'} and not delegate_run[(T, T)]
     ck.verdict(ok, rule, f, 'valid-sampled=>record-and-sample', None,
                'RECORD_AND_SAMPLE exactly for a valid parent whose sampled predicate is true' if ok else
@@ -601,13 +653,7 @@ def rule_r3(ck, prog, rule='C12.R3', cls='sdk::trace::ParentBasedSampler'):
     ok = have_preds and all(st for (_d, st) in table[(T, T)] | table[(T, F)])
     ck.verdict(ok, rule, f, 'parent-trace-state-both-ways', None,
                'both results carry the parent\'s trace state' if ok else 'a result for a valid parent does not carry the parent\'s trace state')
-    for cname, dec in (('sdk::trace::AlwaysOnSampler', 'RECORD_AND_SAMPLE'), ('sdk::trace::AlwaysOffSampler', 'DROP')):
-        r2 = prog.record(cname)
-        f2 = [x for x in prog.funcs.values() if x.cls == r2['qn'] and x.name == 'ShouldSample'][0]
-        g2 = Graph(prog, f2, inline=None, sync_lambdas=False)
-        rr = g2.returns()
-        ok = bool(rr) and all(_decision_of(f2, r.n['e']) == dec for r in rr)
-        ck.verdict(ok, rule, f2, 'constant-decision', rr[0].n if rr else None, 'every return is %s' % dec if ok else '%s can return a decision other than %s' % (cname.rsplit('::', 1)[-1], dec))
+    _constant_samplers(ck, prog, rule)
 
 
 def run(ck, prog):
@@ -625,8 +671,16 @@ def run(ck, prog):
     f = rule_r1(ck, prog, cg)
     rule_r1b(ck, prog)
     ct = rule_r2(ck, prog, cg, f)
-    rule_r2b(ck, prog, ct)
-    rule_r2c(ck, prog, ct)
+    # the arithmetic of the mapping may sit in a file-local helper that the guarded mapping function calls with the ratio itself
+    arith = ct
+    if not any(n['k'] == 'binop' and n['op'] == '<<' for n in ct.nodes):
+        cands = [prog.funcs[n['ck']] for n in ct.nodes if n['k'] == 'call' and n.get('ck') in prog.funcs and prog.funcs[n['ck']].blocks and
+                 len(prog.funcs[n['ck']].params) == 1 and strip_casts(ct, n['args'][0]).get('id') == ct.params[0]['id'] and
+                 any(m['k'] == 'binop' and m['op'] == '<<' for m in prog.funcs[n['ck']].nodes)]
+        if len(cands) == 1:
+            arith = cands[0]
+    rule_r2b(ck, prog, arith)
+    rule_r2c(ck, prog, arith)
     rule_r3(ck, prog)
     # the parent-based sampler reads the decision back from the flags byte the tracer wrote: the encoding rule of C05
     # is a prerequisite of "a child gets exactly the parent's sampled decision"
